@@ -17,7 +17,7 @@ func libraryRoot() string {
 	if r := os.Getenv("VERIF_REPO"); r != "" {
 		return r
 	}
-	if b, err := os.ReadFile(filepath.Join(report.Root, "mc", "go.mod")); err == nil {
+	if b, err := os.ReadFile(filepath.Join(report.McDir(), "go.mod")); err == nil {
 		for _, line := range strings.Split(string(b), "\n") {
 			if strings.HasPrefix(strings.TrimSpace(line), "replace github.com/antonmedv/expr =>") {
 				f := strings.Fields(line)
@@ -43,7 +43,7 @@ func buildVerifBinary() (bin string, res *overlay.Result, cleanup func(), err er
 	}
 	bin = filepath.Join(dir, "mc-verif")
 	cmd := exec.Command("go", "build", "-tags", "verif", "-overlay", res.OverlayFile, "-o", bin, "./cmd/mc")
-	cmd.Dir = filepath.Join(report.Root, "mc")
+	cmd.Dir = report.McDir()
 	if out, berr := cmd.CombinedOutput(); berr != nil {
 		return "", res, cleanup, fmt.Errorf("overlay build failed: %s", lastLines(string(out), 6))
 	}
